@@ -324,12 +324,20 @@ bool FileManager::readStream(std::istream &_istream, MeshT &_mesh,
 
     // stop at the end of the file and as soon as the stream fails (e.g. a
     // property value that cannot be parsed): a failed stream never reaches eof
-    while(_istream.good()) {
-        // "End of file reached while searching for input!"
-        // is thrown here. \TODO Fix it!
+    try {
+        while(_istream.good()) {
+            // "End of file reached while searching for input!"
+            // is thrown here. \TODO Fix it!
 
-        // Read property
-        readProperty(_istream, _mesh);
+            // Read property
+            readProperty(_istream, _mesh);
+        }
+    } catch (const std::runtime_error &e) {
+        // e.g. a property section without a name cannot be made persistent
+        if (verbosity_level_ >= 1) {
+            std::cerr << "OVM File loading error: invalid property section: " << e.what() << std::endl;
+        }
+        return false;
     }
 
     if(_computeBottomUpIncidences) {
